@@ -25,11 +25,11 @@ type raceSummary struct {
 }
 
 type raceReport struct {
-	pair     string // functions only (stable across line shifts)
-	detail   string // with file:line
-	libBoth  bool
-	harness  bool
-	text     string
+	pair    string // functions only (stable across line shifts)
+	detail  string // with file:line
+	libBoth bool
+	harness bool
+	text    string
 }
 
 var frameRe = regexp.MustCompile(`^\s+(\S+)\(`)
@@ -215,15 +215,15 @@ func searchR(bin, work, prop string, seed uint64, tc tierCfg) *raceSummary {
 	}
 	sort.Strings(ps)
 	rs.cov = map[string]interface{}{
-		"runs":                       agg.Runs,
-		"wall_s":                     time.Since(start).Seconds(),
-		"race_pairs_in_library":      ps,
-		"race_reports_harness_only":  harnessRaces,
-		"race_reports_mixed":         otherRaces,
-		"faults_fired":               agg.Fired,
-		"non_trivial_runs":           agg.Nontrivial,
-		"mode":                       "free-running inside a synctest bubble under -race, GOMAXPROCS=8, actors of one phase start together, broker reacts inline, SimConn.Write copies each packet in two halves with a yield",
-		"replay":                     "re-execution of the scenario until the same access pair is reported, <= 20 tries",
+		"runs":                      agg.Runs,
+		"wall_s":                    time.Since(start).Seconds(),
+		"race_pairs_in_library":     ps,
+		"race_reports_harness_only": harnessRaces,
+		"race_reports_mixed":        otherRaces,
+		"faults_fired":              agg.Fired,
+		"non_trivial_runs":          agg.Nontrivial,
+		"mode":                      "free-running inside a synctest bubble under -race, GOMAXPROCS=8, actors of one phase start together, broker reacts inline, SimConn.Write copies each packet in two halves with a yield",
+		"replay":                    "re-execution of the scenario until the same access pair is reported, <= 20 tries",
 	}
 	return rs
 }
